@@ -143,10 +143,10 @@ Proof.
   - destruct (k_startfut (tasks s0 t)) as [f|].
     + destruct (f_st (futs s4 f)).
       * left. rewrite fc_groups. congruence.
-      * destruct (is_cancel e); [left; rewrite Hc; congruence|right; exists e; split; [reflexivity|]; now rewrite Hc, Ha].
-      * destruct (is_cancel e); [left; rewrite Hc; congruence|right; exists e; split; [reflexivity|]; now rewrite Hc, Ha].
-      * destruct (is_cancel e); [left; congruence|right; exists e; split; [reflexivity|]; now rewrite Hc, Ha].
-    + destruct (is_cancel e); [left; rewrite Hc; congruence|right; exists e; split; [reflexivity|]; now rewrite Hc, Ha].
+      * destruct (is_cancel e); [left; rewrite Hc; congruence|right; exists e; split; [reflexivity|]; now rewrite groups_scope_cancel, Ha].
+      * destruct (is_cancel e); [left; rewrite Hc; congruence|right; exists e; split; [reflexivity|]; now rewrite groups_scope_cancel, Ha].
+      * destruct (is_cancel e); [left; congruence|right; exists e; split; [reflexivity|]; now rewrite groups_scope_cancel, Ha].
+    + destruct (is_cancel e); [left; rewrite Hc; congruence|right; exists e; split; [reflexivity|]; now rewrite groups_scope_cancel, Ha].
   - (* cancelled *)
     rewrite (Hoc e eq_refl). left. destruct (k_startfut (tasks s0 t)) as [f|]; [|rewrite Hc; congruence].
     destruct (f_st (futs s4 f)); rewrite ?fc_groups, ?Hc; congruence.
